@@ -89,6 +89,9 @@ type FuncContract struct {
 	Key      string
 	File     string
 	Requires []Clause
+	// RepInv: representation invariant of the receiver's package-private state: assumed at root entry, asserted at
+	// call sites inside the declaring package, not demanded from callers in other packages (see calls_ops.go)
+	RepInv   []Clause
 	Ensures  []Clause
 	Loops    map[int]*LoopContract
 	Nullable map[string]bool
@@ -147,6 +150,7 @@ var clauseKeywords = map[string]bool{
 	"mode": true, "alloc_bound": true, "pure": true, "protected_by": true, "immutable": true,
 	"inv": true, "opaque": true, "havoc": true, "noinline": true, "bounded": true, "returns_fresh": true,
 	"sweep": true, "cover": true, "replay_hint": true, "never_writes": true, "frame_only": true, "reveal": true, "iface_calls_only": true, "direct_calls_only": true,
+	"rep_invariant": true,
 }
 
 // ParseContractFile reads one file and adds its declarations to cs. pkgKey is
@@ -316,6 +320,12 @@ func (cs *ContractSet) ParseContractFile(path string, pkgPath string) error {
 					return err
 				}
 				cur.Requires = append(cur.Requires, c)
+			case "rep_invariant":
+				c, err := mkClause(rest)
+				if err != nil {
+					return err
+				}
+				cur.RepInv = append(cur.RepInv, c)
 			case "ensures":
 				c, err := mkClause(rest)
 				if err != nil {
